@@ -207,3 +207,18 @@ Proof.
   intros Hf Hp. apply mixed_history_equals_source_history; try assumption.
   intros. apply gen_commit_paths_agree.
 Qed.
+
+(* ---- the exported wrappers forward alike, and the two places that turn rules source into IR (convertAST inside Load, the
+   precompiler's command) set up parser, type checker and irconv.Context alike: `convert` is one function *)
+Lemma gen_wrappers_agree : gen_wrapper_diff = [].
+Proof. reflexivity. Qed.
+
+Lemma gen_convert_sites_agree : gen_convert_site_load = gen_convert_site_precompile.
+Proof. vm_compute. reflexivity. Qed.
+
+Lemma gen_convert_site_complete :
+  forallb (fun need => existsb (String.eqb need) gen_convert_site_load)
+          ["Context.Fset is the parser's file set: yes"; "Context.Pkg is the checked package: yes"; "Context.Src is the parsed text: yes";
+           "Context.Types is the checker's info: yes"; "the parsed file is the file converted: yes";
+           "the parsed file is the only file checked: yes"]%string = true.
+Proof. vm_compute. reflexivity. Qed.
